@@ -169,22 +169,48 @@ def eval_history(case):
             x += ch
             exp.extend((ch_, _expected_state(c)) for ch_ in c["text"])
         done = cut
-        try:
-            s = str(x)
-            fs = format(x, "")
-            cells, final, _ = sgr.interpret(s)
-            if [(a, b) for a, b, _ in cells] != exp:
-                f.append(("stale_or_wrong_rendering_after_in_place_extension", f"{chunks[:done]!r} -> {s!r}"))
-            if fs != s:
-                f.append(("format_differs_from_str", f"{fs!r} vs {s!r}"))
-            if C.CHText.strip_colors(s) != x.plain_text() or x.plain_text() != "".join(a for a, _ in exp):
-                f.append(("strip_colors_differs_from_plain_text_after_extension", f"{s!r} vs {x.plain_text()!r}"))
-            if final != sgr.DEFAULT:
-                f.append(("not_default_after_text", repr(s)))
-        except sgr.Malformed as e:
-            f.append(("malformed_sequence", str(e)))
+
+        def check_render():
+            try:
+                s = str(x)
+                fs = format(x, "")
+                cells, final, _ = sgr.interpret(s)
+                if [(a, b) for a, b, _ in cells] != exp:
+                    f.append(("stale_or_wrong_rendering_after_in_place_extension", f"{chunks[:done]!r} -> {s!r}"))
+                if fs != s:
+                    f.append(("format_differs_from_str", f"{fs!r} vs {s!r}"))
+                if C.CHText.strip_colors(s) != x.plain_text() or x.plain_text() != "".join(a for a, _ in exp):
+                    f.append(("strip_colors_differs_from_plain_text_after_extension", f"{s!r} vs {x.plain_text()!r}"))
+                if final != sgr.DEFAULT:
+                    f.append(("not_default_after_text", repr(s)))
+            except sgr.Malformed as e:
+                f.append(("malformed_sequence", str(e)))
+        check_render()
         if f:
             break
+        if case.get("failing"):
+            # an in-place extension that fails half-way, right after a rendering: [a valid chunk, an object whose str()
+            # raises]. Whether the valid part stays appended is not specified - but str() and plain_text() must keep
+            # telling the same story
+            class _Bad:
+                def __str__(self):
+                    raise RuntimeError("cannot be rendered")
+            c = case["failing"][len(exp) % len(case["failing"])]
+            before = x.plain_text()
+            try:
+                x += [_mk(C.ColorFmt, c)(c["text"]), _Bad()]
+            except Exception:   # noqa
+                pass
+            classes.add("failed_in_place_extension")
+            after = x.plain_text()
+            if after == before + c["text"]:
+                exp.extend((ch_, _expected_state(c)) for ch_ in c["text"])
+            elif after != before:
+                f.append(("failed_extension_corrupts_text", f"{before!r} -> {after!r}"))
+                break
+            check_render()
+            if f:
+                break
     key = ["hist", [[c.get("fg"), c.get("bg"), sorted((c.get("eff") or {}).items()), c["text"] != ""] for c in chunks], cuts]
     return Outcome("extend_merges_into_last_chunk_after_render" in classes or any(_is_nt(c) for c in chunks),
                    sorted(classes), f, key=key, evals=len(cuts) + 1)
@@ -304,8 +330,8 @@ def st_history():
     few = st.sampled_from([None, "RED", "RED", 200, "g3"])
     ch = st.fixed_dictionaries({"fg": few, "bg": st.sampled_from([None, None, "BLUE"]),
                                 "eff": st.sampled_from([{}, {}, {"bold": True}]), "text": st.text("ab ", max_size=3)})
-    return st.builds(lambda cs, h: {"chunks": cs, "history": h}, st.lists(ch, min_size=2, max_size=7),
-                     st.lists(st.integers(0, 7), min_size=1, max_size=4))
+    return st.builds(lambda cs, h, fl: {"chunks": cs, "history": h, "failing": fl}, st.lists(ch, min_size=2, max_size=7),
+                     st.lists(st.integers(0, 7), min_size=1, max_size=4), st.none() | st.lists(ch, min_size=1, max_size=2))
 
 
 def st_invalid():
